@@ -172,6 +172,13 @@ pub fn vx_drain_incl(v: &mut Vec<usize>, a: usize, b: usize) -> (r: Vec<usize>)
 //@@ LuaGreenNodeBuilder
 
 impl LuaGreenNodeBuilder<'_> {
+    /// `LuaGreenNodeBuilder::new()` is `LuaGreenNodeBuilder::default()` (`#[derive(Default)]`): three empty vectors and
+    /// `rowan::GreenNodeBuilder::default()` (derived as well: empty `parents`/`children`, owned empty cache).
+    #[verifier::external_body]
+    pub fn new() -> (r: LuaGreenNodeBuilder<'static>)
+        ensures fresh(&r)
+    { unimplemented!() }
+
     //@@ LuaGreenNodeBuilder::with_cache
     //@@ LuaGreenNodeBuilder::token
     //@@ LuaGreenNodeBuilder::start_node
@@ -188,6 +195,7 @@ impl LuaGreenNodeBuilder<'_> {
 //@@ LuaTreeBuilder
 
 impl<'a> LuaTreeBuilder<'a> {
+    //@@ LuaTreeBuilder::new
     //@@ LuaTreeBuilder::token
     //@@ LuaTreeBuilder::start_node
     //@@ LuaTreeBuilder::finish_node
